@@ -106,7 +106,6 @@ Proof.
   destruct s as [|d s'].
   - reflexivity.
   - rewrite lexs_ident_run; auto.
-    + simpl. now rewrite <- app_assoc.
     + discriminate.
     + change (no_slash_pair (c :: d :: s')) with
         (negb (beqb c x2f && (beqb d x2f || beqb d x2a)) && no_slash_pair (d :: s')) in Hs.
@@ -144,14 +143,16 @@ Lemma bare_props p : bare_path p ->
   (forall c, hd_error p = Some c -> beqb c x22 = false /\ beqb c x60 = false) /\
   existsb is_quote p = false.
 Proof.
-  intros (N & Hb & Hs & Hl). repeat split; auto.
-  - rewrite forallb_forall in *. intros x Hx. apply bare_identc. auto.
-  - intros c Hc. destruct p as [|c' p]; [discriminate|]. injection Hc as ->.
+  intros (N & Hb & Hs & Hl).
+  split; [exact N|]. split.
+  { rewrite forallb_forall in *. intros x Hx. apply bare_identc. auto. }
+  split; [exact Hs|]. split; [exact Hl|]. split.
+  { intros c0 Hc0. destruct p as [|c1 p']; [discriminate|]. injection Hc0 as ->.
     simpl in Hb. apply andb_true_iff in Hb. destruct Hb as [Hc _].
-    apply not_quote_22. now apply bare_not_quote.
-  - destruct (existsb is_quote p) eqn:E; [|reflexivity].
-    apply existsb_exists in E. destruct E as (x & Hx & Q).
-    rewrite forallb_forall in Hb. rewrite (bare_not_quote _ (Hb _ Hx)) in Q. discriminate.
+    apply not_quote_22. now apply bare_not_quote. }
+  destruct (existsb is_quote p) eqn:E; [|reflexivity].
+  apply existsb_exists in E. destruct E as (x & Hx & Q).
+  rewrite forallb_forall in Hb. rewrite (bare_not_quote _ (Hb _ Hx)) in Q. discriminate.
 Qed.
 
 Inductive arg_tok (p : str) : tok -> Prop :=
@@ -226,6 +227,9 @@ Proof.
     now rewrite (IH ra eq_refl Hb).
 Qed.
 
+Lemma lex_all_single l ts : lex_line l = LOk ts -> lex_all [l] = LLOk [ts].
+Proof. intros H. simpl. now rewrite H. Qed.
+
 Lemma lex_all_blank bl : Forall blank_line bl -> lex_all bl = LLOk (map (fun _ => []) bl).
 Proof.
   induction 1 as [|l bl Hl _ IH]; simpl; [reflexivity|].
@@ -252,17 +256,17 @@ Proof.
          | w0 w1 w2 c1 bl1 w3 t w4 c2 bl2 w5 w6 c3 H0 H1 H2 Hc1 Hb1 H3 Ht H4 Hc2 Hb2 H5 H6 Hc3].
   - destruct (line_directive_lex _ _ _ _ _ _ H0 H1 N1 Ht H2 Hc) as (tk & A & L).
     exists [[TId (B "module"); tk]], (SLine [TId (B "module"); tk]), tk.
-    split; [simpl; now rewrite L|]. split; [exact A|]. split; [|now left].
+    split; [now apply lex_all_single|]. split; [exact A|]. split; [|now left].
     intros ls. simpl. destruct (arg_tok_not_paren _ _ A) as [P _]. now rewrite P.
   - destruct (arg_lex _ _ _ _ _ H3 Ht H4 Hc2) as (tk & A & L).
     exists ([[TId (B "module"); TP x28]] ++ map (fun _ => []) bl1 ++ [[tk]] ++ map (fun _ => []) bl2 ++ [[TP x29]]),
            (SBlock [TId (B "module")] [[tk]]), tk.
     split.
-    { apply lex_all_app; [simpl; now rewrite open_lex|].
+    { apply lex_all_app; [apply lex_all_single; now apply open_lex|].
       apply lex_all_app; [now apply lex_all_blank|].
-      apply lex_all_app; [simpl; now rewrite L|].
+      apply lex_all_app; [now apply lex_all_single|].
       apply lex_all_app; [now apply lex_all_blank|].
-      simpl. now rewrite close_lex. }
+      apply lex_all_single. now apply close_lex. }
     split; [exact A|]. split; [|now right].
     intros ls. rewrite <- !app_assoc. simpl. rewrite parse_blank. simpl.
     destruct (arg_tok_not_paren _ _ A) as [_ P]. rewrite P. rewrite parse_blank. reflexivity.
@@ -297,8 +301,10 @@ Lemma add_noseen v a e :
     add v a e2 = {| e_seen := e_seen e2; e_mod := e_mod e2; e_err := e_err e2; e_others := e_others e2 ++ suf |}.
 Proof.
   intros H e2. unfold add in *. destruct (seqb v (B "module")).
-  - exfalso. unfold add_module in H. destruct (e_seen e); simpl in H; [discriminate|].
-    destruct a as [|x [|y l]]; simpl in H; try discriminate. destruct (parse_string x); discriminate.
+  - exfalso. unfold add_module in H. destruct (e_seen e) eqn:S.
+    + simpl in H. congruence.
+    + destruct a as [|x [|y l]]; simpl in H; try discriminate.
+      destruct (parse_string x); simpl in H; discriminate.
   - destruct (is_other_verb v).
     + exists [(v, map tok_text a)]. split; reflexivity.
     + exists []. rewrite !app_nil_r. split; [reflexivity|]. now destruct e2.
